@@ -357,10 +357,10 @@ func writesLinks(f *ssa.Function, r *c12roles, depth int) bool {
 }
 
 type shapeCase struct {
-	name   string
-	heap   *shapeHeap
-	args   []int // object ids (-1 nil)
-	check  func(h *shapeHeap, released []int) error
+	name  string
+	heap  *shapeHeap
+	args  []int // object ids (-1 nil)
+	check func(h *shapeHeap, released []int) error
 }
 
 func runR12g(c *core.Ctx, r *c12roles) {
